@@ -5,6 +5,7 @@ import AdaVerif.Lemmas.ParseInv
 import AdaVerif.Lemmas.KernIs4
 import AdaVerif.Lemmas.Kern6Ser
 import AdaVerif.Lemmas.Kern6Parse
+import AdaVerif.Lemmas.Kern6Main
 /-
 C10 — Hosts are classified and canonicalised per the Standard; host kind is truthful.
 
@@ -59,15 +60,22 @@ theorem kernel_serialize_ipv6 (a : List Nat) (hl : a.length = 8) (ha : ∀ x ∈
     serIpv6 a = [0x5B] ++ ipv6Serialize a ++ [0x5D] := K6.serIpv6_eq a hl ha
 
 open AdaVerif.Model.HostKernels in
-/-- pieces of **parse_ipv6** that are proved: the hex piece reader is the Standard's "up to four hex digits", and the
-    last lines (the in-place move of the pieces behind `::`) produce the Standard's eight pieces.  The loop in
-    between is modelled and run against the code, not proved equivalent. -/
-theorem kernel_parse_ipv6_parts :
-    (∀ p : Bytes, parseHexPiece p = readHex 4 p) ∧
-    (∀ (pieces : List Nat) (k : Nat), k ≤ pieces.length → pieces.length ≤ 7 →
-      K6.finC (K6.pad8 (K6.expand pieces (some k))) (K6.expand pieces (some k)).length (some (k + 1)) =
-        V6.finish (some (pieces, some k))) :=
-  ⟨K6.parseHexPiece_eq, K6.final_some⟩
+/-- **`url::parse_ipv6` is the Standard's IPv6 parser, on every input**: the piece reader, the embedded-IPv4 loop,
+    the main loop with its early exits (`piece_index == 8`), the 45-byte limit and the in-place move of the pieces
+    behind `::` give exactly the eight pieces (or the failure) of Spec.ipv6Parse. -/
+theorem kernel_parse_ipv6 (input : Bytes) : parseIpv6 input = ipv6Parse input := K6.parseIpv6_eq input
+
+open AdaVerif.Model.HostKernels in
+/-- the 45-byte limit of `parse_ipv6` rejects nothing the Standard accepts -/
+theorem ipv6_text_at_most_45 (s : Bytes) (a : List Nat) (h : ipv6Parse s = some a) : s.length ≤ 45 := K6.spec_len45 s a h
+
+open AdaVerif.Model.HostKernels in
+/-- parsing and serialising with the code's kernels is parsing and serialising with the Standard's, for every
+    bracketed host text (the pieces a successful parse yields are eight 16-bit numbers) -/
+theorem kernel_ipv6_host (input : Bytes) (a : List Nat) (h : parseIpv6 input = some a)
+    (hl : a.length = 8) (hb : ∀ x ∈ a, x < 65536) :
+    serIpv6 a = [0x5B] ++ ipv6Serialize a ++ [0x5D] ∧ ipv6Parse input = some a :=
+  ⟨K6.serIpv6_eq a hl hb, by rw [← K6.parseIpv6_eq]; exact h⟩
 
 open AdaVerif.Model.HostKernels in
 /-- worked instances (kernel-evaluated) -/
